@@ -177,7 +177,7 @@ class DbLayouts(Fam):
     name = 'database-layouts'
     exhaustive = False
     procs = 0
-    rule = ('tiny database (9 genomes incl. identical ones) written with the signature file in identity / reversed / rotated / shuffled order and '
+    rule = ('tiny database (11 genomes incl. identical ones and two without any k-mer; one probe without any k-mer) written with the signature file in identity / reversed / rotated / shuffled order and '
             'unused signatures in front, behind, both, in the middle or absent (20 layouts) x 4 probes x chunk sizes {none,1,2,4,1000} x N in {1,3,n+2}: '
             'one record per (layout, probe) holding all runs; TLC recomputes the distances from the nucleotide sequences')
 
@@ -185,15 +185,19 @@ class DbLayouts(Fam):
         import random
         from .. import world as W
         w = W.default_world(ctx.seed)
+        # two reference genomes without a single k-mer (adjacent in the genome set), and a query without one: their distance is 0
+        for nm in ('empty_a', 'empty_b'):
+            i_ = len(w['genomes']) + 1
+            w['genomes'].append(dict(key=nm, desc=f'genome {nm}', taxon=6, contigs=['GGGGCCCCGGCC'], genbank_acc=f'GCA_{i_:04d}.1', refseq_acc=f'GCF_{i_:04d}.1', ncbi_id=5000 + i_))
         n = len(w['genomes'])
         rng = random.Random(ctx.seed + 4)
-        orders = dict(identity=list(range(n)), reversed=list(range(n))[::-1], rotated=list(range(3, n)) + [0, 1, 2], shuffled=rng.sample(range(n), n))
+        orders = dict(identity=list(range(n)), reversed=list(range(n))[::-1], rotated=list(range(3, n)) + [0, 1, 2], empties_first=[n - 2, n - 1] + list(range(n - 2)), shuffled=rng.sample(range(n), n))
         extras = dict(none=[], front=[0], back=[n], both=[0, n + 1], middle=[4])
         probes = W.query_pool(w, seed=ctx.seed + 5)
         for on, order in orders.items():
             for en, pos in extras.items():
                 yield dict(world=w, order=order, extra=[dict(id=f'unused_{i}', contigs=[W.rand_seq(rng, 150)], pos=p) for i, p in enumerate(pos)],
-                           probes=[p['contigs'] for p in probes[:4 if ctx.tier == 'quick' else len(probes)]], layout=f'{on}/{en}')
+                           probes=[p['contigs'] for p in probes[:3 if ctx.tier == 'quick' else len(probes)]] + [['CCGGGGCC']], layout=f'{on}/{en}')
 
     def execute(self, inp):
         raise NotImplementedError        # executed in bulk, see db_layout_records
